@@ -191,6 +191,9 @@ func (h *harness) onFrame(conn int, peer *wire.Peer, e wire.Entry) {
 		}
 		if a.Plan.Trig == "headers" {
 			act = h.triggerLocked(rid, r, a, peer)
+		} else if h.sc.Cfg.StarveRetries && a.Wire == 0 {
+			sid := e.Stream
+			act = func() { peer.WriteWindowUpdate(sid, 1<<24) }
 		}
 		h.bcastLocked()
 	case http2.FrameData:
@@ -371,7 +374,11 @@ func Run(sc *Scenario) *Obs {
 				h.peers = append(h.peers, peer)
 				h.mu.Unlock()
 				peer.OnFrame = func(e wire.Entry) { h.onFrame(idx, peer, e) }
-				if err := peer.Start(http2.Setting{ID: http2.SettingInitialWindowSize, Val: 1 << 24}); err != nil {
+				iws := uint32(1 << 24)
+				if sc.Cfg.StarveRetries {
+					iws = 16
+				}
+				if err := peer.Start(http2.Setting{ID: http2.SettingInitialWindowSize, Val: iws}); err != nil {
 					continue
 				}
 				peer.WriteWindowUpdate(0, 1<<30)
